@@ -43,6 +43,13 @@ func TestC14Stress(t *testing.T) {
 		cbWork := time.Duration(rapid.SampledFrom([]int{0, 0, 200, 1000}).Draw(t, "callbackMicros")) * time.Microsecond
 		nNodes := rapid.IntRange(2, 3).Draw(t, "nodes")
 		tellers := rapid.IntRange(1, 4).Draw(t, "tellers")
+		if len(spec.Layers) == 1 && spec.Layers[0].Kind == "p2pke" {
+			// several plaintexts of one peer in flight while a callback is still looking at an earlier one
+			tellers = max(tellers, 2)
+			if cbWork == 0 {
+				cbWork = 500 * time.Microsecond
+			}
+		}
 		askers := rapid.IntRange(0, 3).Draw(t, "askers")
 		receivers := rapid.IntRange(1, 3).Draw(t, "receivers")
 		servers := rapid.IntRange(1, 3).Draw(t, "servers")
@@ -60,6 +67,7 @@ func TestC14Stress(t *testing.T) {
 		ctx, cancel := context.WithCancel(context.Background())
 		var wg sync.WaitGroup
 		var delivered atomic.Int64
+		warm := make(chan struct{})
 		locals := make([]stack.Addr, nNodes)
 		for i, nd := range w.Nodes {
 			locals[i] = nd.Local()
@@ -129,6 +137,7 @@ func TestC14Stress(t *testing.T) {
 				wg.Add(1)
 				go func() {
 					defer wg.Done()
+					<-warm
 					for n := 0; ctx.Err() == nil; n++ {
 						dst := (i + 1 + (n+k)%(nNodes-1)) % nNodes
 						size := sizeFor(sizeClasses[(n*7+k*3)%len(sizeClasses)], mtu, part)
@@ -189,6 +198,19 @@ func TestC14Stress(t *testing.T) {
 				}()
 			}
 		}
+		// Warm-up: one message per pair with a generous deadline, so that layers that need a handshake (with
+		// its 250 ms retransmission interval) have their sessions before the short contention phase begins.
+		for i := range w.Nodes {
+			for j := i + 1; j < nNodes; j++ {
+				e := led.Make(i, j, 24)
+				wctx, wcf := context.WithTimeout(ctx, 3*time.Second)
+				if err := w.Nodes[i].S.Tell(wctx, locals[j], p2p.IOVec{append([]byte{}, e.Data...)}); err != nil {
+					led.Refuse(e)
+				}
+				wcf()
+			}
+		}
+		close(warm)
 		time.Sleep(time.Duration(rapid.IntRange(60, 200).Draw(t, "runMs")) * time.Millisecond)
 		// Close while everything is still running, then stop the callers
 		closed := make(chan struct{})
